@@ -1497,7 +1497,9 @@ impl HnswBackend {
             if !matches!(fsync_policy, FsyncPolicy::Never) {
                 std::fs::File::open(&wal_path)
                     .and_then(|file| file.sync_all())
-                    .with_context(|| format!("failed to fsync replayed WAL segment {}", wal_name))?;
+                    .with_context(|| {
+                        format!("failed to fsync replayed WAL segment {}", wal_name)
+                    })?;
             }
         }
 
